@@ -128,6 +128,58 @@ impl Prop for C07 {
     fn check(&self, c: &Case, st: &mut Stats) -> Result<(), Failure> {
         check_case(c, st)
     }
+    fn post(&self, tier: Tier, seed: u64) -> (serde_json::Value, Option<(Case, Failure)>) {
+        if tier != Tier::Thorough {
+            return (json!({"fuzz": "not part of the quick tier"}), None);
+        }
+        // hand-made seeds: interval method at the pole with each policy (the shape of defect D2)
+        let mut seeds = Vec::new();
+        for pol in 0u8..15 {
+            let mut v = vec![0u8; 96];
+            v[0] = 0; // latitude atom
+            v[1] = 0; // 90 N
+            v[20] = 7; // some method byte positions vary with consumption; harmless if off
+            v[60] = pol;
+            seeds.push(v);
+        }
+        let runs: u64 = std::env::var("VERIF_FUZZ_RUNS").ok().and_then(|s| s.parse().ok()).unwrap_or(1_500_000);
+        let out = crate::fuzzrun::run("c07_nopanic", seed, runs, 192, &seeds, None);
+        let mut ev = out.evidence;
+        let mut confirmed = None;
+        let mut unconfirmed = 0;
+        for a in &out.artifacts {
+            let Ok(bytes) = std::fs::read(a) else { continue };
+            let case = crate::decode::c07_case(&bytes);
+            let name = a.file_name().unwrap().to_string_lossy().to_string();
+            if name.starts_with("timeout-") {
+                // hang rule: re-run under the watchdog in this (release) process on a helper thread
+                let c2 = case.clone();
+                let (tx, rx) = std::sync::mpsc::channel();
+                std::thread::spawn(move || {
+                    let mut st = Stats::new(0);
+                    let _ = tx.send(check_case(&c2, &mut st));
+                });
+                match rx.recv_timeout(Duration::from_secs(30)) {
+                    Ok(Ok(())) => unconfirmed += 1,
+                    Ok(Err(f)) => confirmed = Some((case, f)),
+                    Err(_) => confirmed = Some((case, Failure::new("hang", "result within 30 s", "no result after 30 s (libFuzzer timeout artifact, reproduced by the release harness)"))),
+                }
+            } else {
+                let mut st = Stats::new(0);
+                match check_case(&case, &mut st) {
+                    Ok(()) => unconfirmed += 1,
+                    Err(f) => confirmed = Some((case, f)),
+                }
+            }
+            if confirmed.is_some() {
+                break;
+            }
+        }
+        if let Some(o) = ev.get_mut("fuzz").and_then(|f| f.as_object_mut()) {
+            o.insert("artifacts_not_confirmed_by_release_harness".into(), json!(unconfirmed));
+        }
+        (ev, confirmed)
+    }
     fn rule(&self) -> String {
         "generated over the full product: latitude incl. +-90/+-66.56/0, longitude, elevation, GMT offset anywhere in [-12,12] (uncoupled), 9 methods x 15 policies (substitute latitude in [-90,90]) x 4 roundings x schools, angles [0,25], intervals [0,180], 7 minute offsets in [-1500,1500], weather, dates 1600-2399. Non-trivial = at least one entry Invalid or flagged extreme (code paths beyond the happy path); distinct by hash of the case".into()
     }
